@@ -35,6 +35,7 @@ fn main() {
         "conc" => conc::run(&opts),
         "race" => race::run(&opts),
         "scan" => race::run_scan(&opts),
+        "sweep" => race::run_sweep(&opts),
         "term" => term::run(&opts),
         "termchild" => term::termchild(&opts),
         "inflight" => inflight::run(&opts),
